@@ -159,8 +159,8 @@ fn diff_fp(stage: &str, d: &gvcf::cmp::Diff, g: &Generated, hint: &str) -> Strin
 }
 
 /// All checks for one generated record under one header.
-fn check_bcf(t: &dyn Tagger, hdr: &Hdr, header: &vcf::Header, g: &Generated, decoded: &dyn Fn() -> String) -> Outcome {
-    match check_bcf_inner(t, hdr, header, g, decoded) {
+fn check_bcf(t: &dyn Tagger, env: &Env, g: &Generated, decoded: &dyn Fn() -> String) -> Outcome {
+    match check_bcf_inner(t, env, g, decoded) {
         Err(v) if matches!(g.expect, Expect::Unjudged(_)) && !v.fingerprint.contains("outcome=panic") => {
             t.tag("not-a-vcf-value-divergence-not-judged");
             Ok(())
@@ -169,7 +169,9 @@ fn check_bcf(t: &dyn Tagger, hdr: &Hdr, header: &vcf::Header, g: &Generated, dec
     }
 }
 
-fn check_bcf_inner(t: &dyn Tagger, hdr: &Hdr, header: &vcf::Header, g: &Generated, decoded: &dyn Fn() -> String) -> Outcome {
+fn check_bcf_inner(t: &dyn Tagger, env: &Env, g: &Generated, decoded: &dyn Fn() -> String) -> Outcome {
+    let (hdr, header): (&Hdr, &vcf::Header) = (&env.hdr, &env.header);
+    let pre = env.bcf.as_ref().unwrap_or_else(|| vmc::machinery("BCF header constants could not be computed"));
     let rb = g.rec.to_record_buf();
     let hint = cause_hint(g, hdr);
     let all_shapes = hint.as_str();
@@ -217,8 +219,19 @@ fn check_bcf_inner(t: &dyn Tagger, hdr: &Hdr, header: &vcf::Header, g: &Generate
     if stream.records.len() != 1 {
         return Err(Violation::new("stage=raw symptom=record-count", dec(), "1 record", format!("{}", stream.records.len())));
     }
-    let dict_text = bcfraw::dict_from_text(&stream.header_text);
-    let dict_model = bcfraw::dict_from_model(hdr);
+    // the header block is a constant of the environment: verified, then the cached parses are used
+    let same_header = bytes.starts_with(&pre.header_bytes) && stream.header_text == pre.header_text;
+    if !same_header {
+        return Err(Violation::new(
+            "stage=raw symptom=header-block-differs-between-writes",
+            dec(),
+            "the same header bytes for the same header value",
+            format!("{:?}", stream.header_text),
+        ));
+    }
+    let skip = pre.header_bytes.len();
+    let dict_text = pre.dict_text.clone();
+    let dict_model = pre.dict_model.clone();
     let dict = match (&dict_text, &dict_model) {
         (Ok(a), Ok(b)) => {
             if a != b {
@@ -282,12 +295,13 @@ fn check_bcf_inner(t: &dyn Tagger, hdr: &Hdr, header: &vcf::Header, g: &Generate
     }
 
     // (2) noodles' eager reader, with the header the reader returns
-    let (h_read, back) = match io::bcf_read(&bytes, 1) {
-        Ok((h, mut v)) => {
+    let h_read: &vcf::Header = &pre.read_header;
+    let back = match io::bcf_read_records(h_read, &bytes, skip, 1) {
+        Ok(mut v) => {
             if v.len() != 1 {
                 return Err(Violation::new("stage=read symptom=record-count", dec(), "1 record", format!("{}", v.len())));
             }
-            (h, v.remove(0))
+            v.remove(0)
         }
         Err(f) => return Err(fail_violation("read", &f, all_shapes, dec(), "the accepted record reads back")),
     };
@@ -302,13 +316,19 @@ fn check_bcf_inner(t: &dyn Tagger, hdr: &Hdr, header: &vcf::Header, g: &Generate
     }
 
     // (3) lazy record
-    let lazy = match io::bcf_read_lazy(&bytes, 1) {
-        Ok((_, mut v)) if v.len() == 1 => v.remove(0),
+    let lazy = match io::bcf_read_lazy_records(&bytes, skip, 1) {
+        Ok(mut v) if v.len() == 1 => v.remove(0),
         Ok(_) => return Err(Violation::new("stage=lazy symptom=record-count", dec(), "1 record", "≠ 1")),
         Err(f) => return Err(fail_violation("lazy-read", &f, all_shapes, dec(), "Ok")),
     };
-    match io::guard(|| Rec::from_variant(&h_read, &lazy)) {
-        Ok(m) => {
+    let lazy_notes: Vec<String>;
+    match io::guard(|| {
+        let mut notes = Vec::new();
+        let m = Rec::from_variant_notes(h_read, &lazy, &mut notes)?;
+        Ok((m, notes))
+    }) {
+        Ok((m, notes)) => {
+            lazy_notes = notes;
             if let Some(d) = diff_rec(&g.rec, &m, FloatMode::BitsReservedLenient) {
                 return Err(Violation::new(
                     diff_fp("lazy", &d, g, &hint),
@@ -319,15 +339,10 @@ fn check_bcf_inner(t: &dyn Tagger, hdr: &Hdr, header: &vcf::Header, g: &Generate
             }
         }
         Err(f) => {
-            let cls = match &f {
-                Fail::Err(e) if e.contains("len()=") => "len-differs-from-iter".to_string(),
-                Fail::Err(_) => format!("rejected cause={hint}"),
-                Fail::Panic { .. } => String::new(),
-            };
             return Err(match &f {
                 Fail::Panic { .. } => fail_violation("lazy-accessors", &f, all_shapes, dec(), "Ok"),
                 Fail::Err(_) => Violation::new(
-                    format!("stage=lazy-accessors symptom=inconsistent what={cls}"),
+                    format!("stage=lazy-accessors symptom=inconsistent what=rejected cause={hint}"),
                     dec(),
                     "lazy accessors agree with each other and with the eager record",
                     f.text(),
@@ -347,7 +362,7 @@ fn check_bcf_inner(t: &dyn Tagger, hdr: &Hdr, header: &vcf::Header, g: &Generate
             }
             // end() is rlen-based: it must agree with the eager record's variant_end
             use vcf::variant::Record as _;
-            if let Ok(e2) = back.variant_end(&h_read) {
+            if let Ok(e2) = back.variant_end(h_read) {
                 if e2.get() != end {
                     return Err(Violation::new(
                         "stage=lazy symptom=end-differs-from-eager-variant-end",
@@ -373,7 +388,7 @@ fn check_bcf_inner(t: &dyn Tagger, hdr: &Hdr, header: &vcf::Header, g: &Generate
     match io::vcf_write_record(header, &rb) {
         Ok(_) if has_reserved_nan => t.tag("vcf-text-skipped-reserved-nan"),
         Ok(orig) => {
-            for (who, out) in [("eager", io::vcf_write_record(&h_read, &back)), ("lazy", io::vcf_write_record(&h_read, &lazy))] {
+            for (who, out) in [("eager", io::vcf_write_record(h_read, &back)), ("lazy", io::vcf_write_record(h_read, &lazy))] {
                 match out {
                     Ok(txt) => {
                         if norm_line(&txt) != norm_line(&orig) {
@@ -395,24 +410,52 @@ fn check_bcf_inner(t: &dyn Tagger, hdr: &Hdr, header: &vcf::Header, g: &Generate
     }
 
     // (5) the lazy record is itself a variant record: writing it again must give the same value
-    match io::bcf_write_any(&h_read, &lazy) {
-        Ok(b2) => match io::bcf_read(&b2, 1) {
-            Ok((_, v)) if v.len() == 1 => {
-                if let Some(d) = diff_rec(&g.rec, &Rec::from_record_buf(&v[0]), FloatMode::BitsReservedLenient) {
-                    return Err(Violation::new(
-                        diff_fp("reencode-lazy", &d, g, &hint),
-                        dec(),
-                        "read(write(lazy bcf::Record)) == r",
-                        d.detail,
-                    ));
+    let stage5 = || -> Outcome {
+        match io::bcf_write_any(h_read, &lazy) {
+            Ok(b2) => match if b2.starts_with(&pre.header_bytes) {
+                io::bcf_read_records(h_read, &b2, skip, 1)
+            } else {
+                io::bcf_read(&b2, 1).map(|x| x.1)
+            } {
+                Ok(v) if v.len() == 1 => {
+                    if let Some(d) = diff_rec(&g.rec, &Rec::from_record_buf(&v[0]), FloatMode::BitsReservedLenient) {
+                        return Err(Violation::new(
+                            diff_fp("reencode-lazy", &d, g, &hint),
+                            dec(),
+                            "read(write(lazy bcf::Record)) == r",
+                            d.detail,
+                        ));
+                    }
+                    t.tag("reencode-lazy-ok");
                 }
-                t.tag("reencode-lazy-ok");
-            }
-            Ok(_) => return Err(Violation::new("stage=reencode-lazy symptom=record-count", dec(), "1", "≠ 1")),
-            Err(f) => return Err(fail_violation("reencode-lazy-read", &f, all_shapes, dec(), "the accepted record reads back")),
-        },
-        Err(f @ Fail::Panic { .. }) => return Err(fail_violation("reencode-lazy-write", &f, all_shapes, dec(), "Ok or Err")),
-        Err(Fail::Err(_)) => t.tag("reencode-lazy-rejected"),
+                Ok(_) => return Err(Violation::new("stage=reencode-lazy symptom=record-count", dec(), "1", "≠ 1")),
+                Err(f) => return Err(fail_violation("reencode-lazy-read", &f, all_shapes, dec(), "the accepted record reads back")),
+            },
+            Err(f @ Fail::Panic { .. }) => return Err(fail_violation("reencode-lazy-write", &f, all_shapes, dec(), "Ok or Err")),
+            Err(Fail::Err(_)) => t.tag("reencode-lazy-rejected"),
+        }
+        Ok(())
+    };
+    if let Err(v) = stage5() {
+        // the BCF writer trusts len(): a len() that counts the padding is what breaks the re-encoding
+        if let Some(n) = lazy_notes.first() {
+            return Err(Violation::new(
+                "stage=lazy-accessors symptom=inconsistent what=len-differs-from-iter",
+                dec(),
+                "len() == number of items iter() yields (the BCF writer relies on it when the lazy record is written again)",
+                format!("{n}; re-encoding the lazy record: {} → {}", v.fingerprint, v.observed),
+            ));
+        }
+        return Err(v);
+    }
+    // lowest priority: accessor inconsistencies that did not change any compared value
+    if let Some(n) = lazy_notes.first() {
+        return Err(Violation::new(
+            "stage=lazy-accessors symptom=inconsistent what=len-differs-from-iter",
+            dec(),
+            "len() == number of items iter() yields",
+            n.clone(),
+        ));
     }
     if g.expect == Expect::Exact {
         t.tag("valid-record-round-tripped");
@@ -458,7 +501,7 @@ fn record_body(ch: &Chooser, envs: &Envs, ffs: &[usize], bases: &[usize], idx_fr
     };
     let decoded = || describe(env, b, mi, &g);
     ch.desc(|| format!("{} [{}]", decoded(), g.shapes_str()));
-    let mut r = check_bcf(ch, &env.hdr, &env.header, &g, &decoded);
+    let mut r = check_bcf(ch, env, &g, &decoded);
     ch.obs_hash((&g.rec, r.is_ok()));
     for (_, s) in &g.shapes {
         ch.tag(s);
@@ -489,7 +532,7 @@ fn record_body(ch: &Chooser, envs: &Envs, ffs: &[usize], bases: &[usize], idx_fr
                     fn tag(&self, _: &'static str) {}
                 }
                 let dec2 = || describe(env2, b2, mi2, &g2);
-                if let Err(v1) = check_bcf(&Quiet, &env2.hdr, &env2.header, &g2, &dec2) {
+                if let Err(v1) = check_bcf(&Quiet, env2, &g2, &dec2) {
                     v.fingerprint = v1.fingerprint;
                     break;
                 }
@@ -606,7 +649,9 @@ fn main() {
         } else {
             // fileformat matters to BCF only through the 4.4 leading-phase rule and the SVLEN
             // definition: one format on each side of 4.4 (all four are covered at k=1 above)
-            ctx.harness(Config::new("bcf_rt_k2_v43_v45", 2), |ch| record_body(ch, &envs, &[1, 3], &all_b, false));
+            ctx.harness(Config::new("bcf_rt_k2_v43_v45", 2).time_limit(std::time::Duration::from_secs(780)), |ch| {
+                record_body(ch, &envs, &[1, 3], &all_b, false)
+            });
         }
 
         // (3) integer boundary pairs
@@ -651,7 +696,7 @@ fn main() {
                 let g = Generated { rec, expect, shapes: vec![(key, shape)] };
                 let dec = || format!("fileformat=4.3 header=gvcf::gen_::rich_header context={} a={a} b={b} {}", CTX_NAMES[c], g.rec.show());
                 let t = T(&stats, format!("{}({},{})", if c < 3 || c == 8 { "info" } else { "format" }, class_of(a), class_of(b)));
-                check_bcf(&t, &env.hdr, &env.header, &g, &dec).map_err(|mut v| {
+                check_bcf(&t, env, &g, &dec).map_err(|mut v| {
                     v.fingerprint = format!("context={} {}", CTX_NAMES[c].split('-').take(2).collect::<Vec<_>>().join("-"), v.fingerprint);
                     v
                 })
